@@ -42,6 +42,27 @@ def digitizeF (e : List Rat) : Freq → Nat
   | none => e.length
   | some v => digitize e v
 
+def sortedLe : List Rat → Bool
+  | a :: b :: t => decide (a ≤ b) && sortedLe (b :: t)
+  | _ => true
+
+def sortedGe : List Rat → Bool
+  | a :: b :: t => decide (b ≤ a) && sortedGe (b :: t)
+  | _ => true
+
+/-- `np.digitize(v, edges)` for DEcreasing `edges`, `right=False`: the number of edges > v
+    (`edges[i-1] > v ≥ edges[i]`; numpy computes `len − searchsorted(edges[::-1], v, 'right')`) -/
+def digitizeDec (e : List Rat) (v : Rat) : Nat := e.countP (v < ·)
+
+/-- on decreasing edges NaN goes to index 0 (it sorts after every edge of the reversed vector) -/
+def digitizeDecF (e : List Rat) : Freq → Nat
+  | none => 0
+  | some v => digitizeDec e v
+
+/-- `np.digitize` on a monotonic edge vector of either orientation; numpy tests for non-decreasing
+    first, so a constant vector counts as increasing.  (Non-monotonic edges: ValueError, see `handle`.) -/
+def digitizeM (e : List Rat) (f : Freq) : Nat := if sortedLe e then digitizeF e f else digitizeDecF e f
+
 /-- amplitude, squared in energy mode -/
 def weight (energy : Bool) (a : Rat) : Rat := if energy then a * a else a
 
@@ -141,7 +162,7 @@ def foldIdx (L1 d1 d2 : Nat) : Nat := d1 + d2 * (L1 + 1)
 def holoRowTrips (e1 e2 : List Rat) (energy : Bool) (t : Nat) (r : HoloRow) : List Trip :=
   (List.zip r.f1 (List.zip r.f2 r.a2)).flatMap fun x =>
     (List.zip x.2.1 x.2.2).map fun fa =>
-      ⟨t, foldIdx e1.length (digitizeF e1 x.1) (digitizeF e2 fa.1), weight energy fa.2⟩
+      ⟨t, foldIdx e1.length (digitizeM e1 x.1) (digitizeM e2 fa.1), weight energy fa.2⟩
 
 def holoCoo (e1 e2 : List Rat) (energy : Bool) (rows : List HoloRow) : List Trip :=
   cooFrom (holoRowTrips e1 e2 energy) 0 rows
@@ -181,6 +202,30 @@ def holoSum (e1 e2 : List Rat) (energy : Bool) (rows : List HoloRow) : List (Lis
 def holoMean (e1 e2 : List Rat) (energy : Bool) (rows : List HoloRow) : List (List Rat) :=
   unfoldTrim e1 e2 ((colSums (holoCols e1 e2) (holoFlat e1 e2 energy rows)).map (· / (rows.length : Rat)))
 
+/-- the value of `squash_time`: `False`, `'sum'`, `'mean'`, or anything else (`True`, `0`, `None`,
+    `np.False_`, `'Sum'`, …: the code tests `squash_time is False`, `== 'mean'`, `== 'sum'`) -/
+inductive Squash where
+  | full | sum | mean | other
+  deriving DecidableEq, Repr
+
+inductive HoloOut where
+  | full (m : List (List (List Rat)))
+  | flat (m : List (List Rat))
+
+inductive HoloErr where
+  | typeError | zeroDivision
+  deriving DecidableEq, Repr
+
+/-- the `squash_time` dispatch of `holospectrum` once the sparse matrix is built: an unrecognised value
+    falls through every branch and the final `holo[1:-1, 1:-1]` subscripts a `coo_matrix` (TypeError);
+    the sparse mean over an empty time axis divides by zero (ZeroDivisionError). -/
+def holoOut (sq : Squash) (e1 e2 : List Rat) (energy : Bool) (rows : List HoloRow) : Except HoloErr HoloOut :=
+  match sq with
+  | .full => .ok (.full (holo3d e1 e2 energy rows))
+  | .sum => .ok (.flat (holoSum e1 e2 energy rows))
+  | .mean => if rows.length = 0 then .error .zeroDivision else .ok (.flat (holoMean e1 e2 energy rows))
+  | .other => .error .typeError
+
 /-! ### bin bookkeeping -/
 
 /-- `define_hist_bins`: centre of each bin -/
@@ -190,14 +235,6 @@ def centres : List Rat → List Rat
 
 /-- `define_hist_bins_from_data(nbins=None, mode='sqrt')`: `int(sqrt(n))` -/
 def sqrtBins (n : Nat) : Nat := Nat.sqrt n
-
-def sortedLe : List Rat → Bool
-  | a :: b :: t => decide (a ≤ b) && sortedLe (b :: t)
-  | _ => true
-
-def sortedGe : List Rat → Bool
-  | a :: b :: t => decide (b ≤ a) && sortedGe (b :: t)
-  | _ => true
 
 /-! ### shapes (emd.support.ensure_2d / ensure_equal_dims as used by the spectra) -/
 
@@ -240,6 +277,14 @@ def parseMode (o : Op) : Option Bool :=
   match o.str? "mode" with
   | some "energy" => some true
   | some "amplitude" => some false
+  | _ => none
+
+/-- `np.digitize` accepts both orientations (holospectrum is modelled on both: `digitizeM`) -/
+def edgesProblemM (e : List Rat) : Option String :=
+  if sortedLe e || sortedGe e then none else some "err ValueError"
+
+def parseSquash : String → Option Squash
+  | "none" => some .full | "sum" => some .sum | "mean" => some .mean | "other" => some .other
   | _ => none
 
 /-- classification of an edge vector for `np.digitize`: `ok`, or the answer to give -/
@@ -324,7 +369,7 @@ def handle (o : Op) : Option String :=
       let some a2 := o.vec? 9 | return "bad-op"
       let some f1 := mkFreqs f1v f1n | return "bad-op"
       let some f2 := mkFreqs f2v f2n | return "bad-op"
-      if squash ≠ "none" ∧ squash ≠ "sum" ∧ squash ≠ "mean" then return "bad-op"
+      let some sq := parseSquash squash | return "bad-op"
       if s1.length = 0 ∨ s1.length > 2 ∨ s2.length = 0 ∨ s2.length > 3 ∨ s3.length = 0 ∨ s3.length > 3 then
         return "bad-op"
       if f1.length ≠ s1.foldl (· * ·) 1 ∨ f2.length ≠ s2.foldl (· * ·) 1 ∨ a2.length ≠ s3.foldl (· * ·) 1 then
@@ -342,8 +387,8 @@ def handle (o : Op) : Option String :=
       | some true => pure ()
       if s2.length < 3 then return "err IndexError"      -- infr2.shape[2]
       if e1.length = 0 ∨ e2.length = 0 then return "err IndexError"   -- freq_edges[0]
-      if let some p := edgesProblem e2 then return p
-      if let some p := edgesProblem e1 then return p
+      if let some p := edgesProblemM e2 then return p
+      if let some p := edgesProblemM e1 then return p
       let T := s1[0]!
       let M := s1[1]!
       let K := s2[2]!
@@ -359,13 +404,12 @@ def handle (o : Op) : Option String :=
         let coo := holoCoo e1 e2 energy rows
         if !inShape T (holoCols e1 e2) coo then return "err ValueError"
         return s!"ok T={T} na={na} nc={nc} L1={e1.length} nnz={coo.length} | {fmtNats (coo.map (·.row))} | {fmtNats (coo.map (·.col))} | {fmtVec (coo.map (·.val))}"
-      if squash = "none" then
-        return s!"ok T={T} na={na} nc={nc} | {fmtVec ((holo3d e1 e2 energy rows).map List.flatten).flatten}"
-      else if squash = "sum" then
-        return s!"ok na={na} nc={nc} | {fmtMat (holoSum e1 e2 energy rows)}"
-      else
-        if T = 0 then return "err ZeroDivisionError"     -- sparse mean over an empty axis
-        return s!"ok na={na} nc={nc} | {fmtMat (holoMean e1 e2 energy rows)}"
+      -- (every sparse entry is inside the matrix: C11.holo_sparse_in_shape; rows.length = T here: `chunk M T` has T entries)
+      match holoOut sq e1 e2 energy rows with
+      | .error .typeError => return "err TypeError"
+      | .error .zeroDivision => return "err ZeroDivisionError"
+      | .ok (.full m) => return s!"ok T={T} na={na} nc={nc} | {fmtVec (m.map List.flatten).flatten}"
+      | .ok (.flat m) => return s!"ok na={na} nc={nc} | {fmtMat m}"
   | "CENTRES" => some <| Id.run do
       let some e := o.vec? 0 | return "bad-op"
       return s!"ok n={(centres e).length} | {fmtVec (centres e)}"
